@@ -2,6 +2,6 @@ SPECIFICATION MCSpec
 CONSTANTS
   TW = 2
   Guards = {"leafhash", "index", "logid", "ts", "sig", "cpsig"}
-  Sizes = {3, 5}
+  Sizes = {3}
 INVARIANTS InvSound
 CHECK_DEADLOCK FALSE
